@@ -231,8 +231,32 @@ func ErrText(e error) string {
 }
 
 // Symbols is the export table for package hostlib (dynamic functions are added per cell).
+// named types over string, float64 and bool, as parameters (fixed, variadic, method)
+type Label string
+type Ratio float64
+type Flag bool
+
+func TakeLabel(l Label) string { return "label=" + string(l) }
+func TakeRatio(r Ratio) string { return "ratio=" + flt(float64(r)) }
+func TakeFlag(f Flag) string   { return fmt.Sprint("flag=", bool(f)) }
+func Labels(n int, ls ...Label) string {
+	out := fmt.Sprint(n)
+	for _, l := range ls {
+		out += "/" + string(l)
+	}
+	return out
+}
+func (r *Rec) Tag(l Label, w Ratio) string { return r.Name + ":" + string(l) + ":" + flt(float64(w)) }
+
 func Symbols() map[string]reflect.Value {
 	return map[string]reflect.Value{
+		"Label":     reflect.ValueOf((*Label)(nil)),
+		"Ratio":     reflect.ValueOf((*Ratio)(nil)),
+		"Flag":      reflect.ValueOf((*Flag)(nil)),
+		"TakeLabel": reflect.ValueOf(TakeLabel),
+		"TakeRatio": reflect.ValueOf(TakeRatio),
+		"TakeFlag":  reflect.ValueOf(TakeFlag),
+		"Labels":    reflect.ValueOf(Labels),
 		"Pt":        reflect.ValueOf((*Pt)(nil)),
 		"Vec":       reflect.ValueOf((*Vec)(nil)),
 		"ID":        reflect.ValueOf((*ID)(nil)),
